@@ -750,7 +750,7 @@ func (c *control) dirProc(colon, at bool, params []any) {
 		c2.argPos = c.argPos
 	} else {
 		var args slip.List
-		if c.argPos < len(c.args) {
+		if c.argPos < len(c.args) && c.args[c.argPos] != nil { // nil is the empty list
 			var ok bool
 			if args, ok = c.args[c.argPos].(slip.List); !ok {
 				slip.ErrorPanic(c.scope, 0, "recursive processing directive expected an argument list at %d of %q", c.pos, c.str)
